@@ -17,7 +17,8 @@ unsigned long g_root_i;          /* where popSymbols entered the root routine in
 int g_bk_calls;                  /* backpatch: number of calls, code size at the call */
 unsigned long g_bk_gnc;
 int g_ga_calls, g_ps_calls, g_ps_addr;
-int g_root_ss, g_root_mi;        /* frame size and stack map the root routine was entered with */
+int g_root_ss, g_root_mi;
+unsigned long g_ga_nreg;          /* registers of the root routine when generation of the tree ended */        /* frame size and stack map the root routine was entered with */
 void __verif_gen_state(void *gs) { g_gs = gs; }
 #define FA (g_gs->funcAddrs._d)
 #define NFA (g_gs->funcAddrs._n)
@@ -37,8 +38,9 @@ void __verif_gen_state(void *gs) { g_gs = gs; }
 void c_gen_ast_g(void *p)
 __CPROVER_requires((void *)(p) == (void *)g_gs && GS_SHAPE && NSYM == 1 && GNC == 1)
 ASSIGNS_GEN_CALLEE
-__CPROVER_assigns(g_ga_calls)
+__CPROVER_assigns(g_ga_calls, g_ga_nreg)
 __CPROVER_ensures(GS_SHAPE && NSYM == 1 && GNC >= 1 && GNERR >= OLD(GNERR) && g_ga_calls == OLD(g_ga_calls) + 1)
+__CPROVER_ensures(g_ga_nreg == g_gs->symbols._d[0].register_state._n && g_ga_nreg <= INT_MAX)
 __CPROVER_ensures(GOP(0) == OLD(GOP(0)) && GPAR(0, 0) == OLD(GPAR(0, 0)) && GPAR(0, 1) == OLD(GPAR(0, 1)) && GPAR(0, 2) == OLD(GPAR(0, 2)))
 /* the open routine keeps its name (the frame of c_gen_ast does not contain it) */
 __CPROVER_ensures(g_gs->symbols._d[0].name._id == OLD(g_gs->symbols._d[0].name._id));
@@ -51,6 +53,7 @@ __CPROVER_assigns(g_gs->symbols._n, g_gs->errors._n, __CPROVER_object_whole(g_gs
                   g_gs->out.stack_maps._n, __CPROVER_object_whole(g_gs->out.stack_maps._d), MODEL_MAP_GHOSTS, g_root_i, g_ps_calls, g_ps_addr, g_root_ss, g_root_mi)
 __CPROVER_ensures(GS_SHAPE && NSYM == OLD(NSYM) - 1 && GNERR >= OLD(GNERR) && NSM == OLD(NSM) + 1 && g_ps_calls == OLD(g_ps_calls) + 1 && g_ps_addr == addr)
 __CPROVER_ensures(g_root_i < NFA && FA[g_root_i].first._id == OLD(g_gs->symbols._d[NSYM - 1].name._id) && FA[g_root_i].second.ind == addr &&
+                  FA[g_root_i].second.stack_size == (int)OLD(g_gs->symbols._d[NSYM - 1].register_state._n) &&
                   FA[g_root_i].second.stack_size >= 0 && FA[g_root_i].second.mi == (int)NSM - 1 && g_root_ss == FA[g_root_i].second.stack_size &&
                   g_root_mi == FA[g_root_i].second.mi)
 /* witness for the lookup that follows in Theo::gen */
@@ -68,7 +71,7 @@ __CPROVER_ensures(g_c >= GNC || (GOP(g_c) == OLD(GOP(g_c)) && ((GOP(g_c) == OP_J
 #define R_CODE (g_res->code.code._d)
 void c_gen(void *in, void *out)
 __CPROVER_requires((void *)(out) == (void *)g_res && g_ga_calls == 0 && g_ps_calls == 0 && g_bk_calls == 0)
-__CPROVER_assigns(g_gs, __CPROVER_object_whole(g_res), MODEL_MAP_GHOSTS, g_root_i, g_bk_calls, g_bk_gnc, g_ga_calls, g_ps_calls, g_ps_addr, g_root_ss, g_root_mi)
+__CPROVER_assigns(g_gs, __CPROVER_object_whole(g_res), MODEL_MAP_GHOSTS, g_root_i, g_bk_calls, g_bk_gnc, g_ga_calls, g_ps_calls, g_ps_addr, g_root_ss, g_root_mi, g_ga_nreg)
 /* C02: the result is marked correct exactly when it carries no error - never both, never neither */
 __CPROVER_ensures(g_res->generated_correctly == (g_res->errors._n == 0)) /*@C02,C04*/
 /* C03: position 0 is the PREPARE of the root routine, patched with the frame size and stack map the root routine was entered
@@ -78,6 +81,9 @@ __CPROVER_ensures(R_NC >= 2 && (g_c != 0 || (R_CODE[g_c].op == OP_PREPARE_EXEC &
                   R_CODE[g_c].parameters[PI_prepare_index] >= 0 && (unsigned long)R_CODE[g_c].parameters[PI_prepare_index] < g_res->code.stack_maps._n &&
                   R_CODE[g_c].parameters[PI_prepare_target] == 0 && R_CODE[g_c].parameters[PI_prepare_count] == g_root_ss &&
                   R_CODE[g_c].parameters[PI_prepare_index] == g_root_mi))) /*@C03,C19*/
+/* the root frame is as large as the register table of the root routine was when generation ended: every register the root code
+ * addresses (all allocated during generation) lies inside the frame */
+__CPROVER_ensures(g_root_ss == (int)g_ga_nreg) /*@C03*/
 __CPROVER_ensures(g_c + 1 != R_NC || R_CODE[g_c].op == OP_HALT) /*@C03,C01,C17*/
 /* the tree is generated once, the root routine is closed once with entry 0, and jumps are resolved once, after ALL code
  * (including the final HALT) exists */
